@@ -347,6 +347,71 @@ def random_group(rng, nsplits):
 
 
 # -------------------------------------------------------------------- main
+def process_level(ck):
+    """Real streams: every block's stored CRC and run-length-encoded size must
+    be those of the greedy packing of the input (levels 1..9, both modes):
+    --sequential packs the whole input, otherwise each N*100000-byte chunk on
+    its own.  Blocks are recovered by the independent parser in
+    tools/bzformat.py."""
+    import camp_encode as E
+    import bzformat as B
+    import proc
+    exe = ck.build_lbzip2(asan=False)
+    if not exe:
+        return 0
+    rng = ck.rng
+    I = E.inputs(rng, ck.quick)
+    jobs = []
+    meta = []
+    for name, data, tag in I:
+        if tag in ('tiny',):
+            continue
+        lvls = [1] if ck.quick else [1, 2, 5, 9]
+        if tag in ('boundary', 'boundary-run', 'boundary-run-shifted',
+                   'rle-expands', 'rle-shrinks', 'multi-block'):
+            lvls = [1, 2] if ck.quick else list(range(1, 10))
+        for lvl in lvls:
+            if len(data) < 20000 and lvl > 1:
+                continue
+            for seq in (False, True):
+                jobs.append(dict(exe=exe, args=['-%d' % lvl, '-n%d' %
+                                                rng.choice([1, 2, 4])] +
+                                 (['-u'] if seq else []), data=data,
+                                 timeout=300))
+                meta.append((name, data, lvl, seq))
+    res = proc.run_many(jobs)
+    n = 0
+    for (name, data, lvl, seq), r in zip(meta, res):
+        n += 1
+        if r.code() != 'exit0':
+            ck.violation('compression failed: %r' % r, {'input': name})
+            continue
+        try:
+            _, infos, _ = B.strict_decode(r.out, want_info=True, full=False)
+        except B.Reject as e:
+            ck.violation('output does not parse: %s' % e, {'input': name})
+            continue
+        exp = E.expected_blocks(data, lvl, seq)
+        got = [(i['crc'], i['nblock']) for i in infos]
+        want = [(c, nb) for k, c, nb in exp]
+        if got != want:
+            first = next((j for j in range(min(len(got), len(want)))
+                          if got[j] != want[j]), min(len(got), len(want)))
+            ck.violation(
+                'block boundaries do not follow the greedy packing rule: '
+                'input %s, level %d, %s: %d blocks (expected %d), first '
+                'difference at block %d: RLE sizes got %s, expected %s; '
+                'expected input bytes per block %s' %
+                (name, lvl, '--sequential' if seq else 'default', len(got),
+                 len(want), first, [x[1] for x in got][first:first + 3],
+                 [x[1] for x in want][first:first + 3],
+                 [k for k, _, _ in exp][first:first + 3]),
+                {'input_family': name, 'level': lvl, 'sequential': seq,
+                 'input_hex': data.hex() if len(data) < 300000 else None,
+                 'cmd': 'lbzip2 -%d%s' % (lvl, ' -u' if seq else '')})
+    return n
+
+
 def main():
     ck = Check('C04')
     ck.regen()
@@ -477,6 +542,7 @@ def main():
                 else:
                     ck.broken.append('correspondence: %s %s c=%s model=%s' % (
                         kind, req, det.get('c'), det.get('model')))
+    proc_runs = process_level(ck)
     ck.log('cases %d, mismatching %d' % (stats['cases'], nbad))
     dist = {k: v for k, v in sorted(stats.items()) if k != 'cases'}
     for k, v in dist.items():
@@ -506,6 +572,7 @@ def main():
         'distribution': dist,
         'distribution_digest': dig,
         'c_model_spec_mismatches': nbad,
+        'process_level_streams': proc_runs,
     })
 
 
